@@ -1,7 +1,7 @@
 """C17 — arbitrary server bytes produce only documented exceptions, never hangs, never peer-sized reads."""
 import bvsym as sx
 from bvsym import core
-from .common import FakeSock, KeySource, Obligation, cover, new_ws, quiet_logging, server_frame
+from .common import FakeSock, KeySource, Obligation, Spin, cover, new_ws, quiet_logging, server_frame
 
 PROPERTY = "C17"
 EXPLANATION = ("Handshake phase: _socket.recv_line, _http.read_headers, _handshake._get_resp_headers/handshake and WebSocket.connect "
@@ -58,6 +58,9 @@ def _run(call, what, sock):
         out = "transport:" + type(e).__name__
     except (sx.Control, sx.ConcreteFailure, sx.ReplayMismatch):
         raise
+    except Spin:
+        sx.require(False, "the call spins on a transport that has reported end of stream (no progress, would hang)", what=what)
+        out = "spin"
     except Exception as e:
         sx.require(False, "internal error %s escapes instead of a documented exception" % type(e).__name__, what=what)
         out = "internal"
@@ -107,6 +110,14 @@ def x_clen(n, status):
     resp = b"HTTP/1.1 " + str(status).encode() + b" X\r\nContent-Length: " + val + b"\r\n\r\n" + b"BODYBODY"
     out, ws, sock = _connect(resp, what="content-length value")
     cover("clen-" + out.split(":")[0])
+
+
+def x_body_short(declared, have):
+    """error response declaring `declared` body bytes but delivering only `have`, then end of stream"""
+    resp = b"HTTP/1.1 404 NF\r\nContent-Length: " + str(declared).encode() + b"\r\n\r\n" + b"x" * have
+    out, ws, sock = _connect(resp, what="truncated error body")
+    sx.require(out.startswith("ws:") or out.startswith("transport:"), "a truncated error body ends in a documented exception", got=out)
+    cover("body-short")
 
 
 def x_clen_big(ndigits):
@@ -191,6 +202,9 @@ def x_frame(T, api, ending):
             break
         except (sx.Control, sx.ConcreteFailure, sx.ReplayMismatch):
             raise
+        except Spin:
+            sx.require(False, "the call spins on a transport that has reported end of stream (no progress, would hang)", T=T)
+            return
         except Exception as e:
             sx.require(False, "internal error %s escapes from %s" % (type(e).__name__, api), T=T)
             return
@@ -243,6 +257,9 @@ def obligations(tier):
         Obligation("X-clen", x_clen, [dict(n=n, status=s) for n in (0, 1, 2, 3) for s in (404, 200)],
                    bounds="Content-Length value of 0..3 symbolic ASCII characters on a 404 and a 200 response with a body", budget_s=1800,
                    kernel=["_handshake._get_resp_headers"]),
+        Obligation("X-body-short", x_body_short, [dict(declared=d, have=h) for d in (1, 5, 100, 70000) for h in (0, 1, 4) if h < d],
+                   bounds="error body shorter than its declared Content-Length (0, 1, 4 of 1, 5, 100, 70000 bytes), then end of stream",
+                   must_cover=["body-short"], kernel=["_handshake._get_resp_headers"]),
         Obligation("X-clen-big", x_clen_big, [dict(ndigits=d) for d in (1, 5, 9)], bounds="declared body length of 1, 5 and 9 symbolic decimal digits",
                    must_cover=["clen-big"], kernel=["_handshake._get_resp_headers"]),
         Obligation("X-redirect", x_redirect, [dict(status=s, with_location=w) for s in (301, 302, 303, 307, 308) for w in (False, True)],
